@@ -360,6 +360,13 @@ func (dest *Destination) relay() {
 			if dest.spool != nil {
 				dest.spool.Close()
 			}
+			// a dispatcher that loaded the route's previous config may still be about
+			// to hand us a metric. nobody reads In anymore, so keep draining it:
+			// a removed destination must never block the route and table.
+			go func() {
+				for range dest.In {
+				}
+			}()
 			return
 		case buf := <-toUnspool:
 			// we know that conn != nil here because toUnspool is set above
